@@ -36,7 +36,10 @@ def edit_spec(rng, spec, sel):
     if r < 0.15:
         # an edit no subcommand looks at
         f = rng.choice(s.hfiles)
+        have = {d.name for hf in s.hfiles for d in hf.decls if isinstance(d, histgen.Other)}
         nm = "touch%d" % rng.randint(0, 9999)
+        while nm in have:
+            nm = "touch%d" % rng.randint(0, 999999)
         f.decls.append(histgen.Other(nm, "func %s() {}\n" % nm))
         return s, "add an unrelated function"
     if sub == "new":
@@ -45,7 +48,10 @@ def edit_spec(rng, spec, sel):
         k = rng.random()
         own = [it for it in st.items if isinstance(it, histgen.SField)]
         if k < 0.4 or not own:
+            have = {it.name for x in structs for it in x.items if isinstance(it, histgen.SField)}
             n = "ed%d" % rng.randint(0, 999)
+            while n in have:
+                n = "ed%d" % rng.randint(0, 99999)
             st.items.append(histgen.SField(n, rng.choice(["int", "string", "bool"])))
             return s, "add field %s to %s" % (n, st.name)
         if k < 0.6 and len(own) > 1:
@@ -78,15 +84,24 @@ def edit_spec(rng, spec, sel):
             c.cs[-1] = (n, v)
             return s, "change the value of %s" % n
         f = rng.choice(s.hfiles)
-        f.decls.append(histgen.IntType("Extra"))
-        f.decls.append(histgen.Consts("Extra", [("ExtraOne", 1), ("ExtraTwo", 2)]))
+        have = {d.name for hf in s.hfiles for d in hf.decls if isinstance(d, histgen.IntType)}
+        k = 0
+        while "Extra%d" % k in have:
+            k += 1
+        nm = "Extra%d" % k
+        f.decls.append(histgen.IntType(nm))
+        f.decls.append(histgen.Consts(nm, [(nm + "One", 1), (nm + "Two", 2)]))
         return s, "add an enum type"
     if sub == "rest":
         ifs = [d for f in s.hfiles for d in f.decls if isinstance(d, histgen.RIface)]
         it = rng.choice([x for x in ifs if x.name in sel] or ifs)
         k = rng.random()
         if k < 0.4:
-            it.methods.append(histgen.RMethod("Extra%d" % rng.randint(0, 99), "get", "/extra/{id}", ["id"], [],
+            have = {m.name for m in it.methods}
+            k = 0
+            while "Extra%d" % k in have:
+                k += 1
+            it.methods.append(histgen.RMethod("Extra%d" % k, "get", "/extra/{id}", ["id"], [],
                                               [histgen.RParam("id", "int", "scalar")]))
             return s, "add a method to %s" % it.name
         if k < 0.7 and it.methods:
@@ -103,7 +118,10 @@ def edit_spec(rng, spec, sel):
     dst = next((d for f in s.dest for d in f.decls if isinstance(d, histgen.Struct) and d.name == st.name), None)
     shootnew = (s.destauxcmd and st.name in s.destauxcmd.types) or (s.auxcmd and st.name in s.auxcmd.types)
     if dst is not None and not shootnew and rng.random() < 0.7:
+        have = {it.name for x in s.structs() for it in x.items if isinstance(it, histgen.SField)}
         n = "Ed%d" % rng.randint(0, 999)
+        while n in have:
+            n = "Ed%d" % rng.randint(0, 99999)
         ty = rng.choice(["int", "string"])
         st.items.append(histgen.SField(n, ty))
         dst.items.append(histgen.SField(n, ty if rng.random() < 0.7 else "int64"))
@@ -114,7 +132,11 @@ def edit_spec(rng, spec, sel):
         it.maptag = "-" if it.maptag != "-" else ""
         return s, "toggle map:\"-\" on %s.%s" % (st.name, it.name)
     f = rng.choice(s.hfiles)
-    f.decls.append(histgen.Other("touchm", "func touchm() {}\n"))
+    have = {d.name for hf in s.hfiles for d in hf.decls if isinstance(d, histgen.Other)}
+    k = 0
+    while "touchm%d" % k in have:
+        k += 1
+    f.decls.append(histgen.Other("touchm%d" % k, "func touchm%d() {}\n" % k))
     return s, "add an unrelated function"
 
 
@@ -359,7 +381,21 @@ def handlers(run, shoot):
             names |= {p.name for p in s.pkgdir.iterdir() if ".shootnew" in p.name}
             shutil.rmtree(s.root, ignore_errors=True)
         return "correct" if names == {"a.shootnew.t.go"} else "buggy"
-    return {"K_embed_order": embed_order, "K_rest_alias_dup": alias_dup, "K_rest_cwd": cwd_dep, "K_goimports_cwd": cwd_dep,
+    def selects_generated(entry):
+        w = entry["witness"]
+        a, b = site("sg_a", w["files"]), site("sg_b", w["files"])
+        ra = sh(a, w["args"])
+        rp = sh(b, w["args_prepare"])
+        rb = sh(b, w["args"])
+        if ra["rc"] or rp["rc"] or rb["rc"]:
+            return "other: exit %s %s %s: %s" % (ra["rc"], rp["rc"], rb["rc"], (ra["err"] + rp["err"] + rb["err"])[-300:])
+        ta = (a.pkgdir / w["file"]).read_text()
+        tb = (b.pkgdir / w["file"]).read_text()
+        if ta == tb:
+            return "correct"
+        return "buggy" if "func Newclient(" in tb and "func Newclient(" not in ta else "other: outputs differ unexpectedly"
+
+    return {"K_new_selects_generated": selects_generated, "K_embed_order": embed_order, "K_rest_alias_dup": alias_dup, "K_rest_cwd": cwd_dep, "K_goimports_cwd": cwd_dep,
             "K_aio_overlay_stale": aio_stale, "K_getgofile_ambiguous": getgofile}
 
 
